@@ -11,7 +11,7 @@
 //!              x every path x the builder option cross product of chmod_b and chown_b + chmod, chown, mkfile_m, mkdir_m.
 //! After every call that changed the state, `mode`, `is_exec`, `is_readonly`, `owner` and `entry` are asked on the
 //! same (mutated) instance; they are logged as a group of their own whose pre-state is that post-state (set sym: every
-//! entry, once per distinct post-state and worker; set tree: the entries that changed, every 4th / 3rd new post-state -
+//! entry, once per distinct post-state and worker; set tree: the entries that changed, every 4th / 6th new post-state -
 //! the observers are also asked on every pre-state).
 use std::collections::HashSet;
 
@@ -439,10 +439,10 @@ fn set_tree(cx: &mut Ctx, thorough: bool, seed: u64, worker: u64, workers: u64) 
     if thorough {
         let mut wide = wide;
         wide.shuffle(&mut rng);
-        for t in wide.into_iter().take(700) {
+        for t in wide.into_iter().take(500) {
             work.push((t, 1, false));
         }
-        for t in two.into_iter().take(500) {
+        for t in two.into_iter().take(400) {
             work.push((t, 1, false));
         }
     } else {
@@ -491,7 +491,7 @@ fn main() {
     let mut cx = Ctx { out: Out::create(arg_or("out", "/dev/stdout")), prog: Progress::from_env(), id: 0, seen_post: HashSet::new(), steps: 0, qgroups: 0,
         qops: if set == "sym" { vec!["mode", "is_exec", "is_readonly", "owner", "entry"] } else { vec!["mode", "is_exec", "is_readonly", "owner"] },
         query_all: set == "sym",
-        post_every: if set == "sym" { 1 } else if thorough { 3 } else { 4 } };
+        post_every: if set == "sym" { 1 } else if thorough { 6 } else { 4 } };
     match set.as_str() {
         "sym" => set_sym(&mut cx, thorough, seed, worker, workers),
         "tree" => set_tree(&mut cx, thorough, seed, worker, workers),
